@@ -37,7 +37,7 @@ def run(ctx):
     cfg3 = {"Keys": ["k1", "k2", "k3"], "MaxCp": 2}
     # one key, one value, no TTL, up to 4 checkpoints: EVERY operation sequence to depth 6 (7 thorough), so that state the model does
     # not have (caches keyed on "nothing was written since") cannot hide behind a different path to the same abstract state
-    c.graph_leg(ctx, "Checkpoint.tla", "checkpoint", "Gen_Checkpoint_deep.cfg", {"Keys": ["k1"], "MaxCp": 4}, 200, 9, 6 if q else 7)
+    c.graph_leg(ctx, "Checkpoint.tla", "checkpoint", "Gen_Checkpoint_deep.cfg", {"Keys": ["k1"], "MaxCp": 4}, 200, 9, 6 if q else 7, histbudget=1500000)
     # StateConfig.enable_ttl (plain puts expire after the default TTL): every sequence to depth 6 over one key with clock advances
     c.graph_leg(ctx, "Checkpoint.tla", "checkpoint", "Gen_Checkpoint_ttl.cfg", {"Keys": ["k1"], "MaxCp": 4, "DefTtl": 1}, 200, 9, 3 if q else 5)
     # retention of ONE checkpoint with up to four taken (ids of evicted checkpoints must not come back)
